@@ -480,3 +480,36 @@ func H_C03_nullkeys() {
 	verif.Assert(eqAnyOrder(got, want), "groups")
 	verif.Reach("end")
 }
+
+// H_C03_group_limit: a window on a grouped query cuts the sequence of
+// groups; every returned group still covers all of its members, wherever
+// they stand in the table.
+func H_C03_group_limit() {
+	n := 3 + verif.Choose("rows", 3)
+	lim, off := verif.IntRange("limit", 0, 3), verif.IntRange("offset", 0, 2)
+	verif.Opt("maporder", 1)
+	rows := make([]Map, n)
+	arr := make([]any, n)
+	for i := range rows {
+		k := float64(verif.Choose("k", 3))
+		v := verif.F64("v")
+		verif.Assume(v == v)
+		rows[i] = Map{"k": k, "v": v}
+		arr[i] = rows[i]
+	}
+	got, ok := runQuery(Map{"t": arr}, verif.SQL("SELECT k, COUNT(*) AS c, SUM(v) AS s FROM t GROUP BY k LIMIT ? OFFSET ?", lim, off))
+	if !ok {
+		return
+	}
+	var want []any
+	for i, g := range refGroupBy(rows, "k") {
+		if i >= off && i-off < lim {
+			s := refSum(g.members, "v")
+			x := f64of(s)
+			verif.Assume(x == x)
+			want = append(want, Map{"k": g.key[0], "c": len(g.members), "s": s})
+		}
+	}
+	verif.Assert(verif.Eq(got, want), "window-over-complete-groups")
+	verif.Reach("end")
+}
